@@ -44,6 +44,13 @@ def gen_case(r):
         else:
             parts.append(part)
         p = PathT(parts)
+    if route == "api" and r.pct() < 8:
+        # a type the library's type-name table does not know: serialisation may refuse, never lie
+        # (only the single-type form: there the library refuses; type lists holding a type outside
+        #  its table are outside the domain - JSON/YAML documents hold no tuples)
+        tcond = Leaf("value", "dtype", r.choice(["equal_to", "not_equal_to"]), kwargs={"value": tuple})
+        parts = list(p.parts) + [Part(r.choice(["map", "list", "mol"]), value=tcond)]
+        p = PathT(parts)
     spec = None
     if route == "spec":
         spec = [SP.part_spec(x, SP.Spelling(r)) for x in p.parts]
